@@ -186,8 +186,14 @@ def gen_value(rng, fd, missing=0.12):
             elif c < 0.5:
                 m = rng.randint(10 ** dd, 10 ** (dd + 1) - 1) * 10 + 5
                 x = m * 10.0 ** rng.randint(-12, 12) * rng.choice([1, -1])
-            else:
+            elif c < 0.9:
                 x = rng.uniform(-1, 1) * 10.0 ** rng.randint(-15, 15)
+            else:
+                x = sci_boundary_value(rng, dd)
+                if abs(x) < 2.3e-308 or sci_rounding_overflows(x, dd):
+                    x = 2.5   # subnormals / overflow on rounding: C01's own stream (recorded findings there)
+            if not libm_log10_exact(x):
+                x = 1.0   # the C library's log10 is not modelled: C01's own stream
             return ["float", f2b(x)]
         intw = max(1, n - dd - 2)
         if c < 0.25:
@@ -210,6 +216,63 @@ def gen_value(rng, fd, missing=0.12):
     if rng.random() < 0.1:
         d = d.replace(month=2, day=29, year=rng.choice([2000, 2024, 1604]))
     return ["date", dates.dt_tuple(d)]
+
+
+
+def exact_lg(x):
+    """floor(log10|x|) exactly (x finite, non-zero)"""
+    from fractions import Fraction
+    import math
+    f = Fraction(abs(x))
+    k = int(math.floor(math.log10(abs(x))))
+    while Fraction(10) ** k > f:
+        k -= 1
+    while Fraction(10) ** (k + 1) <= f:
+        k += 1
+    return k
+
+
+def libm_log10_exact(x):
+    """the C library's log10 is not modelled: just below a power of ten it may round up to the integer, and then
+    FloatField's E branch rounds to one digit fewer. True when floor(math.log10|x|) is the exact floor."""
+    import math
+    if x == 0 or x != x or abs(x) == math.inf:
+        return True
+    return int(math.floor(math.log10(abs(x)))) == exact_lg(x)
+
+
+def sci_rounding_overflows(x, dd):
+    """x rounded to dd+1 significant digits exceeds the largest double (CPython's own formatting as the reference)"""
+    import math
+    if x == 0 or x != x or abs(x) == math.inf:
+        return False
+    return abs(float("%.*e" % (dd, x))) == math.inf
+
+
+def sci_boundary_value(rng, dd):
+    """E-notation stress values: subnormals, neighbours of powers of ten and of dd-digit decimals, the top of the range"""
+    import math
+    k = rng.random()
+    if k < 0.2:
+        x = rng.randint(1, 2 ** rng.randint(1, 52)) * 5e-324
+    elif k < 0.5:
+        x = float("1e%d" % rng.randint(-323, 308))
+        for _ in range(rng.choice([0, 1, 1, 2, 3, 7, 40, 400])):
+            x = math.nextafter(x, rng.choice([0.0, math.inf]))
+    elif k < 0.6:
+        x = 1.7976931348623157e308
+        for _ in range(rng.randint(0, 5)):
+            x = math.nextafter(x, 0.0)
+        x *= rng.choice([1.0, 0.99, 0.5])
+    elif k < 0.9:
+        d2 = rng.choice([dd, dd, max(dd - 1, 0), dd + 1])
+        x = float("%d.%se%d" % (rng.randint(1, 9), "".join(rng.choice("0599") for _ in range(d2)) + rng.choice(["", "5", "49999", "50001"]),
+                                rng.randint(-320, 307)))
+    else:
+        x = b2f(rng.getrandbits(64))
+    if x != x or abs(x) == math.inf or x == 0:
+        x = 1.5
+    return x * rng.choice([1, 1, -1])
 
 
 def gen_layout(rng, nmax=6, kinds=("lit", "int", "float", "date"), sci=True, gaps=True):
